@@ -118,7 +118,9 @@ class AppBench:
         loop = asyncio.get_running_loop()
         loop_errors = []
         old_handler = loop.get_exception_handler()
-        loop.set_exception_handler(lambda l, c: loop_errors.append(
+        # ("... exception was never retrieved" is the garbage collector's report about a future nobody asked -- whenever
+        # it runs, possibly about a future of an earlier case; it is no exception raised in the event loop)
+        loop.set_exception_handler(lambda l, c: "was never retrieved" in str(c.get("message")) or loop_errors.append(
             "%s: %r" % (c.get("message"), c.get("exception"))))
         ctx = A.Context(loop=loop, serversite=None)
         tman = self.TokenManager(ctx)
